@@ -102,24 +102,7 @@ pub fn record(args: &Args) {
 
         while produced < n && attempts < n * 20 {
             attempts += 1;
-            let opts = GenOpts { corners: false, ..GenOpts::default() };
-            let mut g = Gen { rng: &mut rng, opts };
-            let nrules = 1 + g.rng.below(4);
-            let mut src = String::new();
-
-            for i in 0..nrules {
-                if i > 0 {
-                    src.push_str(match g.rng.below(10) { 0..=4 => " ; ", 5..=8 => ", ", _ => " || " });
-                }
-                let rule = g.rule();
-                // strip a comment the generator may have added, then add the rule's own
-                let rule = rule.split('"').next().unwrap().trim_end().to_string();
-                src.push_str(&rule);
-                if g.rng.chance(4, 5) {
-                    src.push_str(&format!(" \"r{i}\""));
-                }
-            }
-
+            let src = crate::exprs::commented_expression(&mut rng);
             let ctx = if src.contains("PH") || src.contains("SH") { Ctx::random(&mut rng) } else { Ctx::plain() };
             let ev = event(id + 1, &src, &ctx, &mut rng, ndays, &[]);
             if ev.is_some() {
